@@ -49,6 +49,7 @@ using namespace simdrv;
 namespace simdrv {
 
 FILE* g_out = nullptr;
+std::string g_trace_path;
 
 void emit(char const* fmt, ...)
 {
@@ -201,6 +202,7 @@ int main(int argc, char* argv[])
 	}
 	if (is_open) scns.push_back(cur);
 
+	g_trace_path = argv[2];
 	g_out = std::fopen(argv[2], "w");
 	if (!g_out) { std::fprintf(stderr, "cannot open %s\n", argv[2]); return 2; }
 
